@@ -42,6 +42,35 @@ def solveMilpWith (lm : LinModel α) (o : Options α) (search : Options α → M
 def solveMilpWithFixed (lm : LinModel α) (o : Options α) (search : Options α → MlpOutcome α) : Res α :=
   wrapMilpFixed lm (microlpSolveWith o search)
 
+/-! ### the builder's solver object (`builder/solvers/microlp.rs`) -/
+
+/-- `Microlp { mip_gap, time_limit }`. -/
+structure Microlp (α : Type) where
+  mipGap : Option α
+  timeLimitNs : Option Nat
+  deriving Repr, Inhabited
+
+/-- `Microlp::new()`. -/
+def Microlp.new : Microlp α := { mipGap := none, timeLimitNs := none }
+/-- `with_mip_gap`: the value is stored AS GIVEN (no clamping, no validation here: microlp validates). -/
+def Microlp.withMipGap (m : Microlp α) (gap : α) : Microlp α := { m with mipGap := some gap }
+/-- `with_time_limit`. -/
+def Microlp.withTimeLimit (m : Microlp α) (ns : Nat) : Microlp α := { m with timeLimitNs := some ns }
+/-- the `MilpOptions` built by `<Microlp as Solver>::solve`. -/
+def Microlp.options (m : Microlp α) : Options α := { mipGap := m.mipGap, timeLimitNs := m.timeLimitNs }
+
+/-- the solver object the harness builds: `new()`, then `with_mip_gap` / `with_time_limit` for the options that are set. -/
+def Microlp.build (gap : Option α) (limit : Option Nat) : Microlp α :=
+  let m : Microlp α := Microlp.new
+  let m := match gap with | some g => m.withMipGap g | none => m
+  match limit with | some l => m.withTimeLimit l | none => m
+
+/-- `<Microlp as Solver>::solve`. -/
+def Microlp.solve (m : Microlp α) (lm : LinModel α) (search : Options α → MlpOutcome α) : Res α :=
+  solveMilpWith lm m.options search
+def Microlp.solveFixed (m : Microlp α) (lm : LinModel α) (search : Options α → MlpOutcome α) : Res α :=
+  solveMilpWithFixed lm m.options search
+
 /-- the model passes the wrapper's own pre-checks. -/
 def accepted (lm : LinModel α) : Bool :=
   lm.objective.length == lm.vars.length && lm.vars.all (fun v => (domainOf lm v).isSome) &&
